@@ -577,6 +577,92 @@ fn part_b(sh: &mut Shard, rng: &mut Rng, work: &Path, runs: usize) {
     }
 }
 
+/// Part B2 (round e): one file reachable under two path strings inside the project (a hard link), two editor sessions that
+/// each use their own name for it, strictly alternating calls (no overlap, so the verdict needs no interleaving argument):
+/// a write based on a content that is no longer the file's content must be refused, whichever name it comes through,
+/// and the file always holds the content of the last accepted write.
+fn part_b2(sh: &mut Shard, rng: &mut Rng, work: &Path, runs: usize) {
+    for run in 0..runs {
+        let steps = 6 + rng.usize(20);
+        let seed = rng.next();
+        let case = json!({"part": "B2", "steps": steps, "seed": seed.to_string()});
+        if !sh.begin("B2|aliases", &case) {
+            continue;
+        }
+        let base = work.join(format!("c19b2-{}-{}-{run}", sh.args.shard, std::process::id()));
+        let _ = std::fs::remove_dir_all(&base);
+        let root = base.join("project");
+        write(&root.join("a.st"), "(* init *)\n");
+        if std::fs::hard_link(root.join("a.st"), root.join("b.st")).is_err() {
+            sh.inconclusive("B2: hard links are not supported here");
+            sh.end();
+            return;
+        }
+        let st = WebIdeState::new(Some(root.clone()));
+        let names = ["a.st", "b.st"];
+        let toks: Vec<String> = (0..2).map(|_| st.create_session(IdeRole::Editor).expect("session").token).collect();
+        let mut held: Vec<Option<(u64, String)>> = vec![None, None];
+        let mut r = Rng::new(seed);
+        let mut current = "(* init *)\n".to_string();
+        let mut trace: Vec<String> = Vec::new();
+        let mut bad: Option<(String, String)> = None;
+        for k in 0..steps {
+            let c = r.usize(2);
+            if held[c].is_none() || r.chance(1, 3) {
+                match st.open_source(&toks[c], names[c]) {
+                    Ok(s) => {
+                        trace.push(format!("{c}:open {} -> v{} {:?}", names[c], s.version, s.content.trim()));
+                        if s.content != current {
+                            bad = Some(("B2|open-not-last-success".into(), format!("client {c} opened {} and got {:?}, the file holds {:?}", names[c], s.content, current)));
+                            break;
+                        }
+                        held[c] = Some((s.version, s.content));
+                    }
+                    Err(e) => trace.push(format!("{c}:open {} -> {:?}", names[c], e.kind())),
+                }
+                continue;
+            }
+            let (v, basec) = held[c].clone().unwrap();
+            let content = format!("(* w{c}-{k} *)\n");
+            let res = st.apply_source(&toks[c], names[c], v, content.clone(), true);
+            trace.push(format!("{c}:write {} expecting v{v} (based on {:?}) -> {:?}", names[c], basec.trim(), res.as_ref().map(|w| w.version).map_err(|e| e.kind())));
+            match res {
+                Ok(w) => {
+                    if basec != current {
+                        bad = Some(("B2|stale-write-accepted-through-path-alias".into(), format!("client {c} wrote {:?} through {} based on {:?}, but the file held {:?} (written through the other name): that content was silently overwritten", content.trim(), names[c], basec.trim(), current.trim())));
+                        break;
+                    }
+                    sh.count("B2_writes_accepted", 1);
+                    current = content.clone();
+                    held[c] = Some((w.version, content));
+                }
+                Err(_) => {
+                    if basec == current {
+                        sh.count("B2_up_to_date_writes_refused", 1);
+                    } else {
+                        sh.count("B2_stale_writes_refused", 1);
+                    }
+                    held[c] = None; // a well-behaved client re-opens after a conflict
+                }
+            }
+            let disk = std::fs::read_to_string(root.join("a.st")).unwrap_or_default();
+            if disk != current {
+                bad = Some(("B2|disk-not-last-success".into(), format!("the file holds {disk:?}, the last accepted write was {current:?}")));
+                break;
+            }
+        }
+        match bad {
+            Some((sig, d)) => sh.violation(sig, d, json!({"case": case, "trace": trace})),
+            None => {
+                sh.count("B2_alias_histories_checked", 1);
+                sh.nontrivial(&("B2", seed));
+            }
+        }
+        let _ = std::fs::remove_dir_all(&base);
+        sh.end();
+    }
+}
+
 struct Held {
     version: u64,
     content: String,
@@ -616,6 +702,13 @@ pub fn run(sh: &mut Shard) {
             }
             sh.end();
             let _ = std::fs::remove_dir_all(&base);
+        } else if r["part"] == "B2" {
+            let seed: u64 = r["seed"].as_str().and_then(|x| x.parse().ok()).unwrap_or(1);
+            let steps = r["steps"].as_u64().unwrap_or(10);
+            // the generator draws (steps, seed) from the rng: replay by searching the same stream is not possible, so run a
+            // batch of fresh histories (the verdict does not depend on a schedule; any stale accepted write reproduces it)
+            let _ = (seed, steps);
+            part_b2(sh, &mut rng, &work, 200);
         } else {
             // histories depend on the OS schedule: re-run the same parameters a number of times
             part_b(sh, &mut rng, &work, 50);
@@ -624,6 +717,7 @@ pub fn run(sh: &mut Shard) {
     }
     let thorough = sh.args.thorough();
     // B is time-boxed (first), A is a bounded enumeration
+    part_b2(sh, &mut rng.fork(3), &work, if thorough { 4000 } else { 150 });
     part_b(sh, &mut rng.fork(2), &work, if thorough { 100_000 } else { 10_000 });
     part_a(sh, &mut rng.fork(1), &work);
 }
